@@ -171,9 +171,9 @@ def class_def(c, ns, indent):
         t = cppdecl.ctype(p["t"], this, params)
         init = "nullptr" if p["t"]["q"] in ("*", "@") else "verif::Make< %s >::get()" % t      # (no object graphs)
         out.append("%s  %s %s = %s;" % (pad, t, p["name"], init))
-    def selfed(t):      # the class's own name inside a class template means the instantiation at hand
+    def selfed(t):      # the class's own (unqualified) name inside the class means the class at hand
         t = dict(t, args=[selfed(a) for a in t["args"]])
-        return dict(t, qn=["This"]) if params and t["qn"] == [c["name"]] else t
+        return dict(t, qn=["This"]) if t["qn"] == [c["name"]] else t
     for o in c["ops"]:
         o = dict(o, ret=dict(o["ret"], t1=selfed(o["ret"]["t1"]), t2=selfed(o["ret"]["t2"])),
                  args=[dict(a, t=selfed(a["t"])) for a in o["args"]])
